@@ -38,6 +38,11 @@ def c08(ctx):
              "removes at most one trailing '\\n' (String::pop guarded by ends_with('\\n'))")
     rep.rule("C08.R3", "who-may-touch: the stream fields are accessed only by Environment::{raw,input,output}; output_buf is "
              "the bare writer type (no buffering layer to flush); process stdio is touched only in cli/, lib.rs and Environment::new")
+    rep.rule("C08.R5", "stream pass-through: every call that hands a reader/writer down the chain run_using -> exec_using -> "
+             "Environment::refcell_raw -> Environment::raw instantiates the callee's stream type parameters with the caller's own "
+             "stream type parameters (or, in the non-generic constructor, with Stdin/Stdout themselves): no layer (BufWriter, "
+             "LineWriter, ...) is put between the caller's stream and the interpreter, so a write reaches the caller's writer, and "
+             "its error the interpreter, at the statement that made it")
     rep.rule("C08.R4", "ERRFLOW over src/exec: no Result carrying a runtime / I/O error is discarded, defaulted, dropped or "
              "matched without looking at the error")
     rep.trust("std::io::Write::write_fmt / write_all write everything or return an error; BufRead::read_line reads one line")
@@ -226,6 +231,32 @@ def c08(ctx):
         rep.ob("C08.R3", "stdio::%s::%s" % (top.path, t["callee"]["name"]), ok,
                "" if ok else "%s uses process stdio (%s) outside the CLI layer" % (top.path, t["callee"]["def"]), fn.loc(t["line"]), how="CLI layer")
     rep.floor("C08.R3.stdio", n_stdio, 4, "stdio uses")
+
+    # ---- R5 stream pass-through (type level)
+    n_pass = 0
+    chain = ("exec::exec_using", "exec::environment::Environment::<In, Out>::refcell_raw", "exec::environment::Environment::<In, Out>::raw")
+    for fn in F.all_bodies(tests=False):
+        for bi, t in fn.calls():
+            d = t["callee"].get("def") or ""
+            if d not in chain:
+                continue
+            n_pass += 1
+            targs = [F.ty(i) for i in (t["callee"].get("targs") or [])]
+            top = common.top_fn(F, fn)
+            bad = None
+            for ty in targs:
+                k = ty.kind()
+                if k == "param":
+                    continue
+                if k == "adt" and ty.adt() in ("std::io::Stdin", "std::io::Stdout") and not (ty.d.get("args") or []):
+                    continue
+                bad = ty.s
+            if len(targs) != 2:
+                bad = bad or "unexpected generic arguments %s" % [x.s for x in targs]
+            rep.ob("C08.R5", "pass-through::%s->%s" % (top.path, d.rsplit("::", 1)[-1]), bad is None,
+                   "" if bad is None else "%s hands %s a stream of type %s: a layer between the caller's stream and the interpreter can hold back output and swallow its write error" % (top.path, d, bad),
+                   fn.loc(t["line"]), how="callee instantiated with the caller's stream type parameters")
+    rep.floor("C08.R5", n_pass, 4, "calls along the stream chain")
 
     # ---- R4
     n = common.errflow(ctx, "C08.R4", in_exec, exceptions=EXEC_ERRFLOW_EXCEPTIONS)
